@@ -315,11 +315,52 @@ def _one_axis_tables(ck, F, ce, R):
     from mir import op_place, place_proj
     empties = [(bi, t) for bi, t in ce.calls() if (ce.callee_q(t) or "").endswith("is_empty")]
     caps = [bi for bi, t in ce.calls() if (ce.callee_q(t) or "").endswith("with_capacity")]
+    # the roles are found by dataflow, not by what the locals are called:
+    #   absolute_column / absolute_row : the two flags handed to next_state(..)
+    #   new_column / new_row           : the bindings of components .0 / .1 of the tuple next_state's result lands in
+    #   column / row                   : the two slices whose emptiness is tested; the column letters are scanned first
     names = {}
-    for l in range(len(ce.locals)):
-        nm = ce.local_name(l)
-        if nm in ("absolute_column", "absolute_row", "new_column", "new_row", "column", "row"):
-            names[nm] = l
+    nsc = ce.calls_to("lexer::util::next_state")
+    if len(nsc) == 1:
+        t = nsc[0][1]
+        for nm, a in zip(("absolute_column", "absolute_row"), t["args"]):
+            tr = ce.trace(a)
+            pl = tr["place"] if tr["kind"] == "place" else op_place(a)
+            if pl is not None and not place_proj(pl):
+                names[nm] = ce.resolve_place(pl, through_named=False)["l"] if tr["kind"] == "place" else pl["l"]
+        if not place_proj(t["dest"]):
+            tup = {t["dest"]["l"]}
+            for _ in range(3):
+                for bi, si, st in ce.stmts():
+                    if st["rv"]["k"] == "use" and not place_proj(st["p"]):
+                        src = op_place(st["rv"]["o"])
+                        if src is not None and not place_proj(src) and src["l"] in tup:
+                            tup.add(st["p"]["l"])
+            for bi, si, st in ce.stmts():
+                if st["rv"]["k"] == "use" and not place_proj(st["p"]):
+                    src = op_place(st["rv"]["o"])
+                    pj = place_proj(src) if src is not None else []
+                    if src is not None and src["l"] in tup and len(pj) == 1 and pj[0][0] == "f" and pj[0][1] in (0, 1):
+                        names.setdefault("new_column" if pj[0][1] == 0 else "new_row", st["p"]["l"])
+    slices = []
+    for bi, t in empties:
+        if not t["args"]:
+            continue
+        tr = ce.trace(t["args"][0])
+        l = None
+        if tr["kind"] == "place":
+            l = ce.resolve_place(tr["place"], through_named=False)["l"]
+        else:
+            rt = ce.ref_target(t["args"][0])
+            l = rt["l"] if rt is not None else None
+        if l is not None and l not in slices:
+            slices.append(l)
+    if len(slices) == 2:
+        d0 = min(bi for bi, si in ce.defs().get(slices[0], [(10 ** 6, 0)]))
+        d1 = min(bi for bi, si in ce.defs().get(slices[1], [(10 ** 6, 0)]))
+        first, second = (slices[0], slices[1]) if ce.dominates(d0, d1) else (slices[1], slices[0])
+        names["column"], names["row"] = first, second
+    role = {v: k for k, v in names.items()}
     ok_anchor = len(caps) == 1 and all(k in names for k in ("absolute_column", "absolute_row", "new_column", "new_row")) and len(empties) >= 2
     ck.ob(R, "cycle_endpoint|one-axis anchors", ok_anchor, "cycle_endpoint: flags / is_empty tests / result allocation not found", ce.file, ce.line)
     if not ok_anchor:
@@ -335,9 +376,9 @@ def _one_axis_tables(ck, F, ce, R):
         tr = ce.trace(t["args"][0]) if t["args"] else {"kind": "?"}
         who = None
         if tr["kind"] == "place":
-            who = ce.local_name(ce.resolve_place(tr["place"], through_named=False)["l"])
+            who = role.get(ce.resolve_place(tr["place"], through_named=False)["l"])
         elif rt is not None:
-            who = ce.local_name(rt["l"])
+            who = role.get(rt["l"])
         if who == "column" and ce.dominates(bi, caps[0]):
             start = bi
     if start is None:
@@ -350,10 +391,10 @@ def _one_axis_tables(ck, F, ce, R):
                 tr = ce.trace(t["args"][0])
                 who = None
                 if tr["kind"] == "place":
-                    who = ce.local_name(ce.resolve_place(tr["place"], through_named=False)["l"])
+                    who = role.get(ce.resolve_place(tr["place"], through_named=False)["l"])
                 else:
                     rt = ce.ref_target(t["args"][0])
-                    who = ce.local_name(rt["l"]) if rt is not None else None
+                    who = role.get(rt["l"]) if rt is not None else None
                 if who == "column":
                     return col_empty
                 if who == "row":
